@@ -138,6 +138,7 @@ struct Cfg {
   uint64_t scale{1};
   std::string sub{"A"};
   uint64_t hang_s{20};
+  uint64_t step{0};
   uint64_t pace_ns{2000};
   uint64_t fwdchaos{0};
   uint64_t preempt{0};
@@ -723,7 +724,37 @@ struct HThread {
   bool transient{false};
   bool released{false};
   uint64_t skew_ns{0};
+  // instruction stepper: stall this thread step_ns at the step_k-th instruction after every probe hook of its claim
+  // loop / exit_ns at the exit_k-th instruction after the first hook of its exit path (0 = not stepped)
+  uint32_t step_k{0}, exit_k{0};
+  uint64_t step_ns{0}, exit_ns{0};
 };
+thread_local uint32_t tl_ho_step_k = 0, tl_ho_exit_k = 0;
+thread_local uint64_t tl_ho_step_ns = 0, tl_ho_exit_ns = 0;
+std::atomic<uint64_t> g_ho_claim_arms{0}, g_ho_exit_arms{0};
+
+void
+HandoffPointCb(int id, const void *)
+{
+  using namespace ::dbgroup::verif;
+  switch (id) {
+    case kIdProbe:
+      if (tl_ho_step_k != 0) {
+        g_ho_claim_arms.fetch_add(1, kRlx);
+        StepArm(tl_ho_step_k, tl_ho_step_ns);
+      }
+      break;
+    case kIdClaimed: StepDisarm(); break;
+    case kIdExitBegin:
+      if (tl_ho_exit_k != 0) {
+        g_ho_exit_arms.fetch_add(1, kRlx);
+        StepArm(tl_ho_exit_k, tl_ho_exit_ns);
+      }
+      break;
+    case kIdExitEnd: StepDisarm(); break;  // never step into the C library's thread exit (it blocks signals)
+    default: break;
+  }
+}
 std::atomic<int> g_ho_gate_seq{0};
 std::atomic<int64_t> g_ho_holding{0};
 std::atomic<uint64_t> g_ho_claims{0}, g_ho_transient_done{0};
@@ -736,7 +767,11 @@ HandoffBody(HThread *h, int gate_seq, int64_t probe, uint64_t uid)
   while (g_ho_gate_seq.load(std::memory_order_acquire) < gate_seq) {
   }
   if (h->skew_ns != 0) SpinNs(h->skew_ns);
+  tl_ho_step_k = h->step_k;
+  tl_ho_step_ns = h->step_ns;
   const auto id = IDManager::GetThreadID();
+  tl_ho_step_k = 0;
+  StepDisarm();
   g_ho_claims.fetch_add(1, kRlx);
   if (id >= kN) {
     Violate("C05", "id-out-of-range", Fmt("GetThreadID returned %zu with capacity %zu (handoff)", id, kN));
@@ -778,6 +813,8 @@ HandoffBody(HThread *h, int gate_seq, int64_t probe, uint64_t uid)
     g_ho_holding.fetch_sub(1, kMo);
   }
   if (id < kN) g_owner[id].store(0, kMo);
+  tl_ho_exit_k = h->exit_k;  // (read by the hook in the thread-exit path)
+  tl_ho_exit_ns = h->exit_ns;
   h->state.store(2, kMo);
   if (h->transient) g_ho_transient_done.fetch_add(1, kMo);
   PreemptUnregister();
@@ -789,7 +826,13 @@ RunHandoff()
   Result res;
   Rng r;
   r.Seed(g_cfg.seed * 271828 + kN);
-  const uint64_t steps = 12000 * g_cfg.scale;
+  // every second run places stalls at single instructions of the claim loop and of the exit path (trap-flag stepper)
+  const bool stepping = VERIF_STEPPER && g_cfg.step != 0;
+  if (stepping) {
+    StepperInstall();
+    g_point_cb = &HandoffPointCb;
+  }
+  const uint64_t steps = (stepping ? 4000 : 12000) * g_cfg.scale;
   std::vector<std::unique_ptr<HThread>> alive;  // holder threads not yet told to exit
   std::vector<std::unique_ptr<HThread>> leaving;  // told to exit / transient: joined lazily
   uint64_t uid = 0, transients_started = 0, done = 0, fills_racing_exits = 0, exits_with_waiters = 0, cascades = 0, resets = 0;
@@ -870,6 +913,10 @@ RunHandoff()
       if (alive[k]->state.load(kMo) != 1) break;
       alive[k]->released = true;
       alive[k]->skew_ns = max_skew ? r.Below(max_skew) : 0;
+      if (stepping && r.Chance(1, 3)) {
+        alive[k]->exit_k = static_cast<uint32_t>(1 + r.Below(160));
+        alive[k]->exit_ns = r.Range(10000, 120000);
+      }
       exiting.push_back(alive[k].get());
       leaving.push_back(std::move(alive[k]));
       alive[k] = std::move(alive.back());
@@ -897,6 +944,14 @@ RunHandoff()
       auto h = std::make_unique<HThread>();
       h->transient = i >= n_hold;
       h->skew_ns = max_skew ? r.Below(max_skew) : 0;
+      if (stepping && r.Chance(1, 3)) {
+        h->step_k = static_cast<uint32_t>(1 + r.Below(220));
+        h->step_ns = r.Range(3000, 60000);
+      }
+      if (stepping && h->transient && r.Chance(1, 4)) {
+        h->exit_k = static_cast<uint32_t>(1 + r.Below(160));
+        h->exit_ns = r.Range(10000, 120000);
+      }
       h->th = std::thread(HandoffBody, h.get(), gate_seq, probe, ++uid);
       if (h->transient) {
         ++transients_started;
@@ -942,6 +997,12 @@ RunHandoff()
   res.Add("exits_while_threads_were_waiting_for_an_id", exits_with_waiters);
   res.Add("cascades_of_transient_claimers", cascades);
   res.Add("handoff_resets", resets);
+  if (stepping) {
+    res.Add("stepper_stalls_at_single_instructions", g_step_stalls.load());
+    res.Add("stepper_instructions_single_stepped", g_step_traps.load());
+    res.Add("stepper_arms_in_claim_loop", g_ho_claim_arms.load());
+    res.Add("stepper_arms_in_exit_path", g_ho_exit_arms.load());
+  }
   res.Add("id_reuses_checked", g_reuse_total.load());
   res.counters["evaluations"] = done;
   for (size_t i = 0; i < kN && i < 64; ++i) {
@@ -2463,6 +2524,7 @@ main(int argc, char **argv)
   g_cfg.pace_ns = a.U("pace", 2000);
   g_cfg.fwdchaos = a.U("fwdchaos", 0);
   g_cfg.preempt = a.U("preempt", 0);
+  g_cfg.step = a.U("step", 0);
   if (g_cfg.preempt != 0) PreempterStart(g_cfg.seed, 30, 400, 20, 400);
   if (g_cfg.mode == "id") return idm::Run();
   if (g_cfg.mode == "storm") return idm::RunStorm();
